@@ -536,6 +536,33 @@ fn main() {
         }
     }
 
+    // ---- scheme-only rules against a URL of every scheme: the engine against the rule-by-rule
+    // evaluation, and (inside rule_matches) every rule's answer against the reading of its text
+    for rule in ["|http*://", "|http*://*", "|http://", "|https://", "|ws://", "@@|http*://", "|http*://$third-party", "|http*://$script,domain=a.com", "|https://$image", "|http://$third-party"] {
+        for scheme in ["http", "https", "ws", "wss"] {
+            for (src, ty) in [("https://a.com/page", "script"), ("http://x.com/", "image")] {
+                let lines: Vec<String> = vec![rule.to_string(), "/zz9/filler.".to_string(), if rule.starts_with("@@") { "/a".to_string() } else { "@@/never-there/".to_string() }];
+                let rules: Vec<NetworkFilter> = lines.iter().filter_map(|l| parse(l)).collect();
+                let url = format!("{}://x.com/a", scheme);
+                let ty = if scheme.starts_with("ws") { "websocket" } else { ty };
+                let Ok(req) = Request::new(&url, src, ty) else { continue };
+                register_request(&req, &url, src, ty);
+                let e = build(&lines, &[], false);
+                let got = engine_verdict(&e, &req);
+                let want = spec(&rules, &HashSet::new(), &req);
+                sm.oracle_evaluations += 1;
+                cs.stat("scheme_only_rule_queries");
+                if got != want {
+                    let lost: Vec<&NetworkFilter> = rules.iter().filter(|f| rule_matches(f, &req) && !tg_ok(f, &req)).collect();
+                    let classes: Vec<Option<&str>> = lost.iter().map(|f| known_class(f, &req, &url)).collect();
+                    let class = if !lost.is_empty() && classes.iter().all(|c| c.is_some()) { classes[0] } else { None };
+                    sm.failure(class, &format!("scheme-only rule: engine says {:?}, rule-by-rule evaluation says {:?}", got, want),
+                        json!({"rules": lines, "tags": [], "url": url, "source": src, "type": ty}));
+                }
+            }
+        }
+    }
+
     // ---- known-finding examples (kept as a corpus; reported only while they still fail)
     let known: [(&str, &[&str], &str, &str, &str); 3] = [
         ("F2_no_source_domain_token", &["adz$domain=a.com", "adz/x1", "adz/x2"], "https://x.com/adz", "", "script"),
